@@ -1,5 +1,5 @@
 # C12: flush actions make prior input decodable; mid-stream option changes are safe (E3 action histories)
-import json, os, subprocess
+import json, lzma, os, re, shutil, subprocess, tempfile, concurrent.futures
 import vlib
 PID = "C12"
 SRC = ["harness/c12_flush.c", "ref/ref_xz.c", "ref/ref_lzma.c", "ref/ref_check.c"]
@@ -9,11 +9,125 @@ def exe():
     return vlib.build_harness("c12_flush", SRC, "san", extra_cflags=["-D" + vlib.GUARD])
 
 
+# ---- xz --flush-timeout: the tool's use of LZMA_SYNC_FLUSH --------------------------------------------------------------
+# The timeout firing is an environment answer: "read() says no data yet, poll() says the timeout expired".  The LD_PRELOAD shim
+# of C17 gives exactly that answer at a chosen call (fault kinds eagain + tmo) without any waiting, so every read of standard
+# input is tried as the place where the writer pauses (thorough: every pair of places).
+FT_INPUT = bytes((i * 7 + (i >> 5) * 13) & 0xFF if (i >> 9) & 1 else b"flush timeout test line\n"[i % 24] for i in range(3 * 8192 + 777))
+FT_CONFIGS = [["-6"], ["-0", "--block-size=8192"], ["-1", "--block-size=4096"], ["-0", "--block-list=8192,100,0"], ["--delta=dist=2", "--lzma2=preset=0"], ["-3", "-C", "sha256"]]
+
+
+def ft_run(xz, shim, scratch, argv, data, faults):
+    d = tempfile.mkdtemp(prefix="ft-", dir=scratch)
+    try:
+        inp, logp, outp = os.path.join(d, "in"), os.path.join(d, "log"), os.path.join(d, "out")
+        open(inp, "wb").write(data)
+        with open(logp, "wb") as logf, open(outp, "wb") as outf, open(inp, "rb") as inf:
+            env = {"LD_PRELOAD": shim, "VS_LOGFD": str(logf.fileno()), "VS_FAULTS": faults, "PATH": "/usr/bin:/bin", "LC_ALL": "C"}
+            try:
+                p = subprocess.run([xz] + argv, cwd=d, env=env, stdin=inf, stdout=outf, stderr=subprocess.PIPE, pass_fds=(logf.fileno(),), timeout=60)
+                rc, err = p.returncode, p.stderr.decode(errors="replace")
+            except subprocess.TimeoutExpired:
+                rc, err = None, "timeout"
+        calls = []
+        for line in open(logp, "r", errors="replace"):
+            m = re.match(r"C (\d+) (\w+) fd=(-?\d+) a=(-?\d+) r=(-?\d+) e=(\d+) f=(\S+)", line)
+            if m:
+                calls.append((int(m.group(1)), m.group(2), int(m.group(3)), int(m.group(4)), int(m.group(5)), m.group(7)))
+        return rc, err, open(outp, "rb").read(), calls
+    finally:
+        shutil.rmtree(d, ignore_errors=True)
+
+
+def ft_prefix_decodes(fmt_lzma, blob, want):
+    """everything in `want` must come out of a decoder that is given only `blob` (no end of input signalled)"""
+    try:
+        d = lzma.LZMADecompressor(format=lzma.FORMAT_ALONE if fmt_lzma else lzma.FORMAT_XZ)
+        got = d.decompress(blob) if blob else b""
+    except lzma.LZMAError as e:
+        return False, "decoder error: %s" % e
+    return got == want, "decoder delivers %d bytes, %d were read by xz" % (len(got), len(want))
+
+
+def cli_flush_part(ck, tier):
+    xz0 = os.path.join(vlib.build_cli(), "xz")
+    shim0 = vlib.build_harness("faultshim.so", ["cli/faultshim.c"], "fast", link_lzma=False, extra_cflags=["-shared", "-fPIC"], extra_ld=["-ldl"])
+    scratch = tempfile.mkdtemp(prefix="c12-", dir=vlib.BUILD)
+    try:
+        xz = shutil.copy2(xz0, os.path.join(scratch, "xz")); shim = shutil.copy2(shim0, os.path.join(scratch, "faultshim.so"))
+        jobs = []
+        for cfg in FT_CONFIGS:
+            argv = ["--flush-timeout=100000000", "-c"] + cfg
+            rc, err, out, calls = ft_run(xz, shim, scratch, argv, FT_INPUT, "")
+            reads = [c[0] for c in calls if c[1] == "read" and c[2] == 0]
+            if rc != 0 or not reads:
+                ck.fail("flush-cli:baseline", f"xz {' '.join(argv)} under the shim without faults: rc={rc} reads={len(reads)} {err[:200]}"); continue
+            for k in reads:
+                jobs.append(("c", argv, [k]))
+            if tier == "thorough":
+                for i, k1 in enumerate(reads):
+                    for k2 in reads[i + 1:]:
+                        jobs.append(("c", argv, [k1, k2 + 1]))      # the poll inserted after k1 shifts the later ordinals by one
+        comp = lzma.compress(FT_INPUT, preset=0)
+        for argv in (["--flush-timeout=100000000", "-dc"], ["-dc", "--flush-timeout=100000000"], ["--flush-timeout=100000000", "-tv"]):
+            rc, err, out, calls = ft_run(xz, shim, scratch, argv, comp, "")
+            for k in [c[0] for c in calls if c[1] == "read" and c[2] == 0]:
+                jobs.append(("d", argv, [k]))
+
+        def one(j):
+            kind, argv, ks = j
+            faults = ",".join(f"{k}:eagain,{k + 1}:tmo" for k in ks)
+            return j, faults, ft_run(xz, shim, scratch, argv, FT_INPUT if kind == "c" else comp, faults)
+        with concurrent.futures.ThreadPoolExecutor(vlib.NCPU) as ex:
+            results = list(ex.map(one, jobs))
+        fired = 0
+        for (kind, argv, ks), faults, (rc, err, out, calls) in results:
+            ck.add("evals"); ck.add("cli_flush_runs")
+            what = f"xz {' '.join(argv)} < {'input' if kind == 'c' else 'input.xz'} with VS_FAULTS={faults}"
+            rj = json.dumps({"cli": "flush-timeout", "argv": argv, "faults": faults, "kind": kind})
+            if rc != 0:
+                ck.fail(f"flush-cli:exit-status:{kind}", f"{what}: exit status {rc}: {err.strip()[:200]}", rj); continue
+            if kind == "d":
+                if "-tv" not in argv and out != FT_INPUT:
+                    ck.fail("flush-cli:decompress-output", f"{what}: wrong decompressed data ({len(out)} bytes)", rj)
+                continue
+            fmt_lzma = "lzma" in argv
+            try:
+                ok = lzma.decompress(out, format=lzma.FORMAT_ALONE if fmt_lzma else lzma.FORMAT_AUTO) == FT_INPUT
+            except lzma.LZMAError:
+                ok = False
+            if not ok:
+                ck.fail("flush-cli:final-output-invalid", f"{what}: the finished output ({len(out)} bytes) does not decode to the input", rj); continue
+            # at every expired timeout: what was written before the next read must already contain everything read so far
+            rd = wr = 0; pending = None
+            for o, name, fd, a, r, f in calls:
+                if name == "poll" and f == "tmo" and r == 0:
+                    pending = rd
+                elif name == "read" and fd == 0:
+                    if pending is not None:
+                        fired += 1; ck.add("flush_points")
+                        good, why = ft_prefix_decodes(fmt_lzma, out[:wr], FT_INPUT[:pending])
+                        if not good and not fmt_lzma:       # (.lzma cannot be flushed: xz ignores the timeout for it, nothing is promised)
+                            ck.fail("flush-cli:not-flushed-at-timeout", f"{what}: when the timeout expired after {pending} input bytes, {wr} bytes had been written: {why}", rj)
+                        pending = None
+                    if r > 0:
+                        rd += r
+                elif name in ("write", "pwrite") and fd == 1 and r > 0:
+                    wr += r
+        if not fired:
+            ck.fail("flush-cli:vacuous", "no injected timeout reached xz's flush path (shim or option handling changed?)")
+        ck.samples.append(f"flush-cli: {len(jobs)} runs, {fired} expired timeouts checked, e.g. {results[len(results) // 2][1] if results else '-'}")
+    finally:
+        shutil.rmtree(scratch, ignore_errors=True)
+
+
 def run(tier):
     ck = vlib.Check(PID, tier, "model_checking")
     e = exe(); n = vlib.NCPU
     ck.run_harness("flush", e, [["run", tier, i, n] for i in range(n)], env={"VERIF_HARNESS_BUDGET_S": str(max(10, ck.time_left() - 15))})
+    cli_flush_part(ck, tier)
     ck.assumptions += [
+        "xz --flush-timeout: 6 option sets x every read of standard input (thorough: every pair) as the place where the timeout expires, injected by the syscall shim (read -> EAGAIN, poll -> 0); 3 decompress/test invocations where the option must be inert",
         "histories over {RUN,SYNC_FLUSH,FULL_FLUSH,FULL_BARRIER} x k new bytes in {0,1,3,nice_len-1,nice_len+1} and 3 filters_update variants, depth 3 (full alphabet) and 4 (k in {0,1,nice_len+1}) at quick, 4 and 5 at thorough, then FINISH",
         "10 encoder configurations (stream/raw/block/threaded x match finders x chains incl. x86 and LZMA1 which must refuse sync flush) x {large, 1-byte} output x 2 inputs",
         "flush x normalise x window-slide interaction through hooks H1/H2 (normalise after 1500 bytes, window reserve 2 KiB): three flushes placed around those points",
